@@ -265,6 +265,7 @@ fn charclass_family(b: &mut Builder, tier: Tier) {
         CharPart::Range(lc('à'), lc('ë')),
         CharPart::Range(sp('b', Spelling::Brace { digits: 2, upper: false }), sp('é', Spelling::U8 { upper: false })),
         CharPart::Ident("E".into()),
+        CharPart::Ident("char".into()),
     ];
     let e_rule = Rule::chr("E", vec![CharPart::Char(lc('x')), CharPart::Char(lc('c'))]);
     let maxn = if tier == Tier::Quick { 2 } else { 3 };
@@ -380,6 +381,43 @@ pub fn c12(tier: Tier) -> Vec<Case> {
                             }
                             let g = root_grammar(dirs, seq(parts.clone()), &[]);
                             add_if_wf(&mut b, "literal-sequences", g, &inputs);
+                        }
+                    }
+                }
+            }
+        }
+    }
+    // what `!` and `&` denote for every kind of operand (`$`, literal, range, rule, `char`, a sequence), written with and
+    // without redundant parentheses, in skipping and non-skipping rules: the negation / test of exactly that operand
+    {
+        let leaves = c02_leaves();
+        let inputs = InputSpec::Strings { alphabet: vec!['a', 'b', 'c', ' '], max_len: if tier == Tier::Quick { 4 } else { 5 } };
+        let operands = vec![Expr::Eoi, lit("b"), range('a', 'b'), rref("X"), rref("char"), seq(vec![lit("b"), Expr::Eoi]), ilit("B")];
+        for operand in &operands {
+            for negative in [true, false] {
+                for paren in [0, 1, 2] {
+                    let la = |inner: Expr| if negative { not(inner) } else { and(inner) };
+                    let guard = match paren {
+                        0 => la(operand.clone()),
+                        1 => la(Expr::Group(Box::new(operand.clone()))),
+                        _ => Expr::Group(Box::new(la(operand.clone()))),
+                    };
+                    if paren == 0 && matches!(operand, Expr::Seq(_)) {
+                        continue;
+                    }
+                    for noskip in [true, false] {
+                        let bodies = vec![
+                            seq(vec![lit("a"), guard.clone(), opt(field("t", "X"))]),
+                            seq(vec![star(seq(vec![guard.clone(), field("i", "X")])), opt(lit("c"))]),
+                            choice(vec![seq(vec![lit("a"), guard.clone()]), seq(vec![lit("a"), opt(lit("c"))])]),
+                        ];
+                        for body in bodies {
+                            let mut dirs = vec![Directive::Export, Directive::Position];
+                            if noskip {
+                                dirs.push(Directive::NoSkipWs);
+                            }
+                            let g = root_grammar(dirs, body, &leaves);
+                            add_if_wf(&mut b, "lookahead-operands", g, &inputs);
                         }
                     }
                 }
